@@ -17,7 +17,7 @@ def sh(cmd, cwd=None, timeout=3600):
 
 
 def main():
-    names = sys.argv[1:] or sorted(n for n in os.listdir(os.path.join(ROOT, "seeded")) if os.path.isdir(os.path.join(ROOT, "seeded", n)))
+    names = sys.argv[1:] or sorted(n for n in os.listdir(os.path.join(ROOT, "seeded")) if os.path.isfile(os.path.join(ROOT, "seeded", n, "meta.json")))
     rc, o = sh("git status --porcelain", cwd="/repo")
     if o.strip():
         print("refusing: /repo has uncommitted changes")
